@@ -1085,7 +1085,11 @@ def main(tier, replay=None):
                        "(4) property oracles on the implementation: random real lattices with cavities x both beam types (energy, charges, count, "
                        "survival range/monotone, blocking screen), statistics with lost particles vs particles deleted; (5) vectorised beams (batch of 2-3, a "
                        "different loss pattern per entry; survival constructed with a batch dimension or produced by a vectorised Aperture): every "
-                       "statistic of every entry vs the un-vectorised beam / the beam with the lost particles deleted, and vs the Q model. Non-trivial = active "
+                       "statistic of every entry vs the un-vectorised beam / the beam with the lost particles deleted, and vs the Q model; (6) VECTORISED "
+                       "apertures: half sizes with batch shapes mixing +inf and finite entries (x only, y only, both at the same / opposite positions, "
+                       "(B,1) x (B2,) outer shapes), both shapes, active/inactive, float32/float64, alone / inside a Segment / after a drift / two in a row, x "
+                       "plain, lined-up and outer-broadcast vectorised beams: every entry vs the exact specification, vs the un-vectorised real Aperture and "
+                       "vs the Q model (ap_check per entry), shape of the survival tensor, total charge and all statistics per entry. Non-trivial = active "
                        "aperture with surviving input / lattice with an active aperture or blocking screen / beam with a lost particle / lattice "
                        "with a live cavity; distinct by full case content.")
     if replay:
